@@ -17,7 +17,9 @@ RULE = ("Unit level, objects built by constructor and by from_xml of an own XML 
         "being P_i == 1 over P_i in {0,1}, x all 2^k assignments; comparison lists of length 0..4 x all assignments; "
         "discrete-lookup lists of length 1..4 x all match patterns observed through BinaryDataEncoding/StringDataEncoding "
         "length selection. Generated part (Hypothesis): random trees of depth <= 4 over mixed-kind parameters, random "
-        "spellings/selectors, both construction routes. Oracle: own evaluator over plain Python values (vf/crit.py); the "
+        "spellings/selectors, both construction routes; and ONE criteria object evaluated over a sequence of 2..5 assignments "
+        "in which a parameter's value changes between int and (calibrated) float, so that nothing may be remembered "
+        "from an earlier evaluation. Oracle: own evaluator over plain Python values (vf/crit.py); the "
         "result must be the bool True/False. Non-trivial: some operand falsy, or mixed int/float, or tree depth >= 2; "
         "distinct by hash of (criteria, assignment).")
 ASSUMPTIONS = ["a literal is spelled in the type of the value it is compared with (decimal int, float repr, text; 0/1 "
@@ -598,9 +600,88 @@ def part_generated(ctx, examples):
     hyp_run(ctx, gen_case(), check_generated, examples)
 
 
+# ---- one criteria object evaluated over a sequence of assignments (evaluation must be a pure function of the
+# assignment: nothing may be remembered from an earlier evaluation, e.g. a literal coerced to the type seen first)
+
+def _num_spec(draw):
+    x = draw(st.integers(-3, 6))
+    if draw(st.booleans()):
+        return {"k": "int", "v": x}
+    return {"k": "float", "v": repr(float(draw(st.sampled_from([x, x, x + 0.5, 2 * x])))), "raw": x}
+
+
+@st.composite
+def gen_seq_case(draw):
+    names = NAMES[:draw(st.integers(1, 3))]
+    ops = sorted(crit.SPELLINGS)
+
+    def cond():
+        left = draw(st.sampled_from(names))
+        if draw(st.integers(0, 3)) == 0 and len(names) > 1:
+            return {"left": left, "lcal": draw(st.booleans()), "op": draw(st.sampled_from(ops)),
+                    "right": draw(st.sampled_from(names)), "rcal": draw(st.booleans()), "value": None}
+        return {"left": left, "lcal": draw(st.booleans()), "op": draw(st.sampled_from(ops)), "right": None, "rcal": False,
+                "value": str(draw(st.integers(-3, 6)))}
+    kind = draw(st.sampled_from(["cmp", "cmp", "cond", "bexpr"]))
+    if kind == "cmp":
+        model = {"ref": draw(st.sampled_from(names)), "op": draw(st.sampled_from(ops)),
+                 "value": str(draw(st.integers(-3, 6))), "cal": draw(st.booleans())}
+    elif kind == "cond":
+        model = cond()
+    else:
+        t = draw(st.sampled_from(["and", "or"]))
+        model = {"t": t, "conds": [cond() for _ in range(draw(st.integers(1, 3)))],
+                 "subs": [{"t": "or" if t == "and" else "and", "conds": [cond() for _ in range(draw(st.integers(1, 2)))],
+                           "subs": []} for _ in range(draw(st.integers(0, 1)))]}
+    assigns = [{n: _num_spec(draw) for n in names} for _ in range(draw(st.integers(2, 5)))]
+    return {"kind": kind, "model": model, "assigns": assigns, "route": draw(st.sampled_from(["ctor", "xml"]))}
+
+
+def check_sequence(ctx, case):
+    kind, model, route = case["kind"], case["model"], case["route"]
+    ctx.count()
+    ctx.cls(f"sequence: {kind}")
+    ctx.sample(f"sequence: {kind}", case)
+    try:
+        obj = lib_object(kind, model, route)
+    except Exception as e:
+        return ctx.fail("construct-raised:" + exc_sig(e), f"{kind} {model} via {route}: construction raised {e!r}", case)
+    kinds_seen = set()
+    for i, assign in enumerate(case["assigns"]):
+        values = refvalues(assign)
+        kinds_seen |= {(n, s["k"]) for n, s in assign.items()}
+        try:
+            exp = crit.ref_cmp(model, values) if kind == "cmp" else crit.ref_cond(model, values) if kind == "cond" \
+                else crit.ref_bexpr(model, values)
+        except (crit.RefError, TypeError):
+            ctx.cls("sequence: skipped evaluation (no reference truth)")
+            continue
+        try:
+            import warnings
+            with warnings.catch_warnings():
+                warnings.simplefilter("ignore")
+                got = obj.evaluate(mkpacket(assign))
+        except Exception as e:
+            return ctx.fail("evaluate-raised:" + exc_sig(e), f"{kind} {model} via {route}, evaluation {i} on {assign} after "
+                                                             f"{case['assigns'][:i]}: raised {e!r}; truth is {exp}", case)
+        if got is not True and got is not False or got != exp:
+            return ctx.fail(f"sequence-wrong:{kind}", f"{kind} {model} via {route}: evaluation {i} on {assign} returned "
+                                                      f"{got!r}, truth is {exp}; earlier evaluations of the same object: "
+                                                      f"{case['assigns'][:i]}", case)
+    if len({k for _, k in kinds_seen}) > 1:
+        ctx.nontrivial(case)
+        ctx.cls("sequence: a parameter's value changes type between evaluations")
+    return None
+
+
+def part_sequence(ctx, examples):
+    hyp_run(ctx, gen_seq_case(), check_sequence, examples)
+
+
 PARTS = {"relations": part_relations, "pairs": part_pairs, "structure": part_structure, "lists": part_lists,
-         "lookups": part_lookups, "generated": part_generated}
+         "lookups": part_lookups, "generated": part_generated, "sequence": part_sequence}
 REPLAY = {k: check_generated for k in PARTS}
+REPLAY["sequence"] = check_sequence
 
 
 # ------------------------------------------------------------------------------------------------
@@ -617,11 +698,15 @@ def plan(tier, seed):
     if tier == "quick":
         for i in range(4):
             tasks.append(("structure", {"max_leaves": 4, "index": i, "of": 4}))
-        for _ in range(16):
+        for _ in range(12):
             tasks.append(("generated", {"examples": 400}))
+        for _ in range(4):
+            tasks.append(("sequence", {"examples": 400}))
     else:
         for i in range(16):
             tasks.append(("structure", {"max_leaves": 5, "index": i, "of": 16}))
         for _ in range(16):
             tasks.append(("generated", {"examples": 6000}))
+        for _ in range(8):
+            tasks.append(("sequence", {"examples": 6000}))
     return tasks
